@@ -1,6 +1,7 @@
 pub mod common;
 pub mod c01;
 pub mod c02;
+pub mod c03;
 pub mod c12;
 
 use crate::engine::Engine;
@@ -9,6 +10,7 @@ pub fn lookup(id: &str) -> Option<(&'static str, fn(&Engine))> {
     Some(match id {
         "C01" => ("C01", c01::run),
         "C02" => ("C02", c02::run),
+        "C03" => ("C03", c03::run),
         "C12" => ("C12", c12::run),
         _ => return None,
     })
